@@ -4,6 +4,7 @@ import (
 	"bytes"
 	"encoding/json"
 	"fmt"
+	"os"
 	"sort"
 	"strings"
 	"testing"
@@ -360,6 +361,9 @@ func cellCase(k cell, bound int, repeats int) harness.Case {
 
 func gen(c *harness.C) []harness.Case {
 	c.Note("rule", "cells = membership map (identity / injective order-preserving and order-reversing with small and 16-bit boundary values / non-injective with replicas) x participating node set x operation x mode; each cell runs the full real stack with logging backend S under the default schedule and all <=d-deviation schedules; replica cells are repeated 16 times because Go map iteration order inside computeMembership cannot be owned; distinct_nontrivial = distinct (cell, class trace)")
+	if os.Getenv("VERIF_FAMILY") == "threads" {
+		return threadCases(c)
+	}
 	var cells []cell
 	add := func(name string, m map[uint16]uint16, parts [][]uint16, signers func(p []uint16) []uint16) {
 		for _, mode := range []string{"loud", "silent"} {
@@ -377,6 +381,9 @@ func gen(c *harness.C) []harness.Case {
 	add("rev3", map[uint16]uint16{1: 13, 2: 12, 3: 11}, [][]uint16{{1, 2, 3}}, all)
 	add("swap2of3", map[uint16]uint16{1: 2, 2: 1, 3: 3}, [][]uint16{{1, 2, 3}}, first2)
 	add("boundary3", map[uint16]uint16{255: 65535, 256: 0, 65534: 257}, [][]uint16{{255, 256, 65534}}, last2)
+	// node identifier 0 and party identifier 0 are ordinary values
+	add("node-zero", map[uint16]uint16{0: 7, 5: 3, 9: 12}, [][]uint16{{0, 5, 9}}, all)
+	add("node-zero-party-zero", map[uint16]uint16{0: 0, 1: 1, 2: 2}, [][]uint16{{0, 1, 2}}, first2)
 	// node 1 and node 2 are replicas of party 21
 	rep := map[uint16]uint16{1: 21, 2: 21, 3: 22, 4: 23}
 	add("replicas4", rep, [][]uint16{{1, 3, 4}, {2, 3, 4}, {1, 2, 3}}, first2)
